@@ -285,6 +285,12 @@ class Engine:
                 return z3.And(*[s.values_eq(x, y, p) for x, y in zip(a.items, b.items)]) if a.items else z3.BoolVal(True)
             sa, sb = s.as_seq(a, p), s.as_seq(b, p)
             return s.seq_eq(sa, sb)
+        if isinstance(a, SRec) and isinstance(b, SRec) and (a.cls == "val" or b.cls == "val"):
+            # provenance records (data-flow contracts): identical record -> equal; otherwise an unconstrained (deterministic) Boolean
+            if a is b:
+                return z3.BoolVal(True)
+            s.abstracted.add("== between two provenance records (uninterpreted Boolean)")
+            return z3.Bool(f"eq_rec[{id(a)},{id(b)}]")
         if isinstance(a, SSet) and isinstance(b, SSet):
             if a.ek != b.ek:
                 raise OutOfSubset("== between sets of different element kinds")
